@@ -266,7 +266,13 @@ func (w *World) buildJob(jp *JobPlan) *execution.Job {
 		j.Spec.Template = &t
 	}
 	if jp.Policy != "" || jp.StartAfter != nil {
-		j.Spec.StartPolicy = &execution.StartPolicySpec{ConcurrencyPolicy: execution.ConcurrencyPolicy(jp.Policy)}
+		pol := execution.ConcurrencyPolicy(jp.Policy)
+		if pol == "" && jp.ConfigName == "" {
+			// an independent Job has no JobConfig to take the policy from; the validating
+			// webhook requires one as soon as a start policy is given
+			pol = execution.ConcurrencyPolicyAllow
+		}
+		j.Spec.StartPolicy = &execution.StartPolicySpec{ConcurrencyPolicy: pol}
 		if jp.StartAfter != nil {
 			ts := metav1.NewTime(w.Sim.Now().Add(time.Duration(*jp.StartAfter) * time.Millisecond).Truncate(time.Second))
 			j.Spec.StartPolicy.StartAfter = &ts
